@@ -4,6 +4,7 @@ import (
 	"fmt"
 	"hash/fnv"
 	"reflect"
+	"strings"
 
 	"github.com/go-spatial/geom"
 	"github.com/pdok/texel/snap"
@@ -158,6 +159,9 @@ func scopesC07orders(thorough bool) []Scope {
 	// matched to one of several shells, equal pieces that cancel): the places where a choice among
 	// equal candidates can depend on an iteration order
 	for _, f := range familyScopes(thorough) {
+		if strings.HasPrefix(f.Name, "F-cells4x4") {
+			continue // ~100k inputs: too many for re-execution under every explored order
+		}
 		f.Cfgs = keepCfgs
 		scs = append(scs, f)
 	}
